@@ -167,8 +167,10 @@ func (p C03) Run(c *sim.Ctx, t *sim.Tape) sim.RunResult {
 	kinds := []string{
 		"Mkdir", "OpenFile", "Create", "WriteFile", "ReadFile", "ReadDir", "Remove", "RemoveAll", "Rename", "Link", "Symlink", "Truncate", "Chmod", "Chown",
 		"Chtimes", "Chdir", "Stat", "Lstat", "Readlink", "MkdirAll", "Lchown",
+		// what an open handle still allows after the permissions of its file have changed (decided at open time by the kernel).
+		"FWrite", "FTruncate", "FRead", "FChmod", "FChown", "FStat", "FClose", "FReadDir",
 	}
-	weights := []int{5, 6, 2, 4, 4, 3, 5, 1, 6, 3, 2, 2, 3, 2, 2, 2, 3, 2, 1, 1, 1}
+	weights := []int{5, 6, 2, 4, 4, 3, 5, 1, 6, 3, 2, 2, 3, 2, 2, 2, 3, 2, 1, 1, 1, 3, 3, 2, 1, 1, 1, 2, 1}
 
 	for q, lim := 0, 50*deeper(c, t); q < lim && (q < 10 || t.Chance(950+20*(lim/100))); q++ {
 		// the administrator interferes from time to time.
@@ -206,13 +208,36 @@ func (p C03) Run(c *sim.Ctx, t *sim.Tape) sim.RunResult {
 
 		o := fsx.Op{K: kinds[t.Weighted(weights)]}
 
+		// the helper has one handle table for everybody: each actor owns two slots of it.
+		slot := 6 + t.Int(2)
+
+		for ui, u := range users {
+			if u == who {
+				slot = 2*ui + t.Int(2)
+			}
+		}
+
 		switch o.K {
+		case "FWrite":
+			o.H, o.Data = slot, fmt.Sprintf("<h%d>", q)
+		case "FTruncate":
+			o.H, o.Size = slot, int64(t.Int(3))
+		case "FRead":
+			o.H, o.N = slot, 4
+		case "FChmod":
+			o.H, o.Perm = slot, c03Modes[t.Int(len(c03Modes))]
+		case "FChown":
+			o.H, o.Uid, o.Gid = slot, ids[t.Int(4)], gids[t.Int(3)]
+		case "FStat", "FClose":
+			o.H = slot
+		case "FReadDir":
+			o.H, o.N = slot, -1
 		case "Mkdir", "MkdirAll":
 			o.P, o.Perm = path(), []uint32{0o777, 0o755, 0o700}[t.Int(3)]
 		case "OpenFile":
-			o.P, o.Flag, o.Perm, o.H = path(), genFlags(t), []uint32{0o666, 0o644, 0o600, 0o777}[t.Int(4)], t.Int(2)
+			o.P, o.Flag, o.Perm, o.H = path(), genFlags(t), []uint32{0o666, 0o644, 0o600, 0o777, 0o444, 0o400}[t.Int(6)], slot
 		case "Create":
-			o.P, o.H = path(), t.Int(2)
+			o.P, o.H = path(), slot
 		case "WriteFile":
 			o.P, o.Data, o.Perm = path(), fmt.Sprintf("<%d>", q), []uint32{0o666, 0o640}[t.Int(2)]
 		case "Rename":
